@@ -14,6 +14,23 @@ pub fn validate_attributes(attributable: &(impl Attributable + AsAttributables),
     }
 }
 
+/// Validates the attributes of a type reference that the visitor doesn't reach
+/// (the underlying type of an enum, or the base of an interface), as is done for every other type reference.
+pub fn validate_attributes_of<T: Element + ?Sized>(type_ref: &TypeRef<T>, diagnostics: &mut Diagnostics) {
+    // Attributes are validated against a `TypeRef<dyn Type>`; none of the checks look at what the reference is bound to.
+    let type_ref_view: TypeRef = TypeRef {
+        definition: TypeRefDefinition::Unpatched(Identifier {
+            value: String::new(),
+            span: type_ref.span.clone(),
+        }),
+        is_optional: type_ref.is_optional,
+        scope: type_ref.scope.clone(),
+        attributes: type_ref.attributes.clone(),
+        span: type_ref.span.clone(),
+    };
+    validate_attributes(&type_ref_view, diagnostics);
+}
+
 /// Validates a list of attributes to ensure attributes which are not allowed to be repeated are not repeated.
 pub fn validate_repeated_attributes(attributes: &[&Attribute], diagnostics: &mut Diagnostics) {
     let mut first_attribute_occurrence = HashMap::new();
